@@ -120,6 +120,20 @@ Proof. unfold zskipn, len. rewrite Nat2Z.id. rewrite skipn_app, skipn_all, Nat.s
 Lemma zfirstn_app {A} (a b : list A) : zfirstn (len a) (a ++ b) = a.
 Proof. unfold zfirstn, len. rewrite Nat2Z.id. rewrite firstn_app, firstn_all, Nat.sub_diag. cbn. apply app_nil_r. Qed.
 
+Lemma clean_no_cr b : Forall (fun c => c <> 13) (clean b).
+Proof.
+  unfold clean. induction b as [|c b IH]; cbn [map]; constructor; [|exact IH].
+  unfold clean1. destruct ((c =? 13) || (c =? 10)) eqn:E; lia.
+Qed.
+Lemma clean_no_crlf b : has_crlf (clean b) = false.
+Proof. apply no_cr_no_crlf, clean_no_cr. Qed.
+Lemma clean_id b : no_crnl b = true -> clean b = b.
+Proof.
+  unfold no_crnl, clean. induction b as [|c b IH]; cbn [forallb map]; [reflexivity|].
+  intros H. apply andb_prop in H as [H1 H2]. rewrite (IH H2). unfold clean1.
+  apply negb_true_iff in H1. rewrite H1. reflexivity.
+Qed.
+
 Lemma pow_bound n : 0 <= n <= u64_max -> 0 <= n < 10 ^ 40.
 Proof. pose proof u64_lt_pow. lia. Qed.
 
@@ -129,9 +143,11 @@ Lemma roundtrip_aux : forall f d, wf d f ->
 Proof.
   induction f using frame_ind'; intros [|d'] Hwf; try (exact (False_ind _ Hwf)); cbn [Resp.wf] in Hwf.
   - (* simple *) eexists; split; [reflexivity|]. intros rest.
-    cbn [app Resp.parse_frame]. ev_eqb. rewrite <- app_assoc, split_crlf_line by exact Hwf. reflexivity.
+    cbn [app Resp.parse_frame]. ev_eqb. rewrite <- app_assoc, split_crlf_line by apply clean_no_crlf.
+    rewrite (clean_id _ Hwf). reflexivity.
   - eexists; split; [reflexivity|]. intros rest.
-    cbn [app Resp.parse_frame]. ev_eqb. rewrite <- app_assoc, split_crlf_line by exact Hwf. reflexivity.
+    cbn [app Resp.parse_frame]. ev_eqb. rewrite <- app_assoc, split_crlf_line by apply clean_no_crlf.
+    rewrite (clean_id _ Hwf). reflexivity.
   - (* int *) eexists; split; [reflexivity|]. intros rest.
     cbn [app Resp.parse_frame]. ev_eqb.
     assert (Hb : - 10 ^ 40 < z < 10 ^ 40).
@@ -861,8 +877,8 @@ Proof. intros H. unfold drain_buf. apply drain_norm; [reflexivity|exact H|lia]. 
 Lemma wfb_wf : forall f d, wfb dparse dprint d f = true -> wf d f.
 Proof.
   induction f using frame_ind'; intros [|d'] Hb; cbn [Resp.wfb Resp.wf] in *; try discriminate; try exact I.
-  - apply negb_true_iff in Hb. exact Hb.
-  - apply negb_true_iff in Hb. exact Hb.
+  - exact Hb.
+  - exact Hb.
   - exact Hb.
   - lia.
   - apply andb_prop in Hb as [H1 H2]. split; [lia|]. rewrite forallb_forall in H2.
@@ -885,6 +901,39 @@ Qed.
 Lemma roundtrip f rest : wf max_levels f ->
   exists b, ser f = (b, true) /\ parse_frame max_levels (b ++ rest) = Done f rest.
 Proof. intros H. destruct (roundtrip_aux f _ H) as (b & Hs & Hp). exists b. split; [exact Hs|apply Hp]. Qed.
+
+Lemma clean_idem b : clean (clean b) = clean b.
+Proof.
+  unfold clean. rewrite map_map. apply map_ext. intros c. unfold clean1.
+  destruct ((c =? 13) || (c =? 10)) eqn:E; [reflexivity|]. rewrite E. reflexivity.
+Qed.
+Lemma len_map {A B} (g : A -> B) l : len (map g l) = len l.
+Proof. unfold len. rewrite map_length. reflexivity. Qed.
+
+Lemma ser_list_sanitize l :
+  Forall (fun f => ser (sanitize f) = ser f) l -> ser_list (map sanitize l) = ser_list l.
+Proof.
+  induction l as [|x l IH]; intros H; [reflexivity|].
+  inversion H as [|? ? Hx Hl]; subst. cbn [map Resp.ser_list]. rewrite Hx, (IH Hl). reflexivity.
+Qed.
+Lemma ser_sanitize : forall f, ser (sanitize f) = ser f.
+Proof.
+  induction f using frame_ind'; try reflexivity.
+  - cbn [sanitize Resp.ser]. rewrite clean_idem. reflexivity.
+  - cbn [sanitize Resp.ser]. rewrite clean_idem. reflexivity.
+  - cbn [sanitize]. rewrite !ser_array, len_map, (ser_list_sanitize _ H). reflexivity.
+  - cbn [sanitize]. rewrite !ser_map, len_map, (ser_list_sanitize _ H). reflexivity.
+  - cbn [sanitize]. rewrite !ser_set, len_map, (ser_list_sanitize _ H). reflexivity.
+Qed.
+
+(** reply framing: whatever bytes a reply carries, it is serialised as exactly one
+    frame - the sanitised one - and nothing of it leaks into the next frame *)
+Lemma reply_framing f rest : wfb dparse dprint max_levels (sanitize f) = true ->
+  exists b, ser f = (b, true) /\ parse_frame max_levels (b ++ rest) = Done (sanitize f) rest.
+Proof.
+  intros H. destruct (roundtrip_b (sanitize f) rest H) as (b & Hs & Hp).
+  exists b. rewrite <- ser_sanitize. split; assumption.
+Qed.
 
 Lemma parse_frame_stable d data :
   (forall f rest, parse_frame d data = Done f rest ->
